@@ -239,7 +239,11 @@ func respell(tc abi.TypeComponent) typeref.Param {
 	return typeref.Param{Type: cur.String() + suffix}
 }
 
-func judgeParam(p typeref.Param) (o outcome) {
+func judgeParam(p typeref.Param) outcome { return judgeParamMode(p, true) }
+
+// judgeParamMode: with deep=false (bulk sweeps) a definition that Parameter.Validate
+// rejects is not also pushed through the other four observation points.
+func judgeParamMode(p typeref.Param, deep bool) (o outcome) {
 	var why string
 	o.verdict, o.node, why = typeref.Recognise(p)
 
@@ -251,8 +255,14 @@ func judgeParam(p typeref.Param) (o outcome) {
 		return o
 	}
 	o.accepted = errValidate == nil
+	if !deep && !o.accepted {
+		if o.verdict == typeref.Valid {
+			o.vs = append(o.vs, evid.V("accept-valid", "%s is a valid ABI type (canonical %s) but is rejected: %v", show(p), o.node.Canonical(), errValidate))
+		}
+		return o
+	}
 
-	// observation points 2-4 on fresh definitions: they must tell the same story
+	// observation points 2-5 on fresh definitions: they must tell the same story
 	var tc abi.TypeComponent
 	var errTree, errSig, errABI, errEntrySig error
 	var sig, entrySig string
@@ -690,7 +700,7 @@ func TestCheck(t *testing.T) {
 				return
 			}
 			p := sweepParam(kw, s)
-			o := judgeParam(p)
+			o := judgeParamMode(p, false)
 			n++
 			if nonTrivial(p, o) {
 				nt++
@@ -722,14 +732,14 @@ func TestCheck(t *testing.T) {
 		for _, kw := range typeref.Keywords {
 			rec2(kw, maxLen)
 		}
-		// every printable-ASCII string of <= 2 characters before a keyword, with typical tails
+		// every printable-ASCII string of <= 2 characters before a keyword (one character: with typical tails)
 		for _, kw := range typeref.Keywords {
-			for _, tail := range []string{"", "8", "256", "[]", "128x18"} {
-				for a := 0x20; a < 0x7f; a++ {
+			for a := 0x20; a < 0x7f; a++ {
+				for _, tail := range []string{"", "8", "256", "[]", "128x18"} {
 					visit(kw, string(rune(a))+kw+tail)
-					for b := 0x20; b < 0x7f; b++ {
-						visit(kw, string(rune(a))+string(rune(b))+kw+tail)
-					}
+				}
+				for b := 0x20; b < 0x7f; b++ {
+					visit(kw, string(rune(a))+string(rune(b))+kw)
 				}
 			}
 			// one printable character inserted at every position inside the keyword
